@@ -48,7 +48,7 @@ EXHAUSTIVE = {"quick": False, "thorough": False}
 CLAUSES = {
     "request/response start-line parsers accept exactly the RFC 9112 grammar, HTTPInputError otherwise":
         "requestLine_iff, requestLine_error_kind, statusLine_iff, statusLine_error_kind",
-    "header-parameter parser never raises": "parseHeader_total (every line, after fix 1947ea7: decode_params / charset exceptions on "
+    "header-parameter parser never raises": "parseHeader_total (every line, after fix 3c2aa7d: decode_params / charset exceptions on "
         "malformed RFC 2231 parameters are caught and the undecoded parameter is kept), parseHeader_plain_returns (no RFC 2231 "
         "parameter: a result, never `Unmodelled`); charsets naming codecs outside the model: tie only (oracle on every `header` case)",
     "cookie parser never raises": "tie only: the model parseCookie is a total function without an error outcome; the oracle checks the implementation",
